@@ -245,7 +245,9 @@ def _forms(C):
     combos = []
     for deg in (True, False):
         combos += [("rotvec", deg, None), ("rotvec", deg, 2), ("angax", deg, None), ("angax", deg, 2), ("euler", deg, None), ("euler", deg, 2), ("eulerI", deg, None)]
-    combos += [("matrix", None, None), ("mrp", None, None), ("mrp", None, 2), ("quat", None, None), ("quat", None, 2)]
+    combos += [("matrix", None, None), ("matrix", None, 2), ("mrp", None, None), ("mrp", None, 2), ("quat", None, None), ("quat", None, 2)]
+    # a vector input of length 1 is a vector input (applied to one entry, appended by default), not a scalar
+    combos += [("rotvec", True, 1), ("angax", True, 1), ("euler", True, 1), ("matrix", None, 1), ("mrp", None, 1), ("quat", None, 1)]
     for form, deg, n_in in combos:
         for start, anchor_kind in (("auto", "none"), (1, "single"), (-1, "zero")):
             def run(form=form, deg=deg, n_in=n_in, start=start, anchor_kind=anchor_kind):
@@ -281,7 +283,7 @@ def _forms(C):
                     o1.rotate_from_euler(ang.copy(), seq, anchor=a1, start=start, degrees=deg)
                     o2.rotate(SymRot.from_euler(seq, ang.copy(), degrees=deg), anchor=a2, start=start)
                 elif form == "matrix":
-                    mtx = symarr("m", (3, 3))
+                    mtx = symarr("m", (3, 3) if n_in is None else (n_in, 3, 3))
                     o1.rotate_from_matrix(mtx.copy(), anchor=a1, start=start)
                     o2.rotate(SymRot.from_matrix(mtx.copy()), anchor=a2, start=start)
                 elif form == "mrp":
@@ -520,7 +522,7 @@ def _replay_form(spec):
     msgs = []
     for deg in (True, False):
         for start, anchor in (("auto", None), (1, (0.3, -0.2, 0.5)), (-1, 0)):
-            for n_in in (None, 2):
+            for n_in in (None, 2, 1):
                 P = rng.normal(size=(2, 3))
                 Q = R.random(2, random_state=5)
                 mk = lambda: magpylib.Sensor(position=P, orientation=Q)
